@@ -77,6 +77,18 @@ CHECKS = {
          "Fault enumeration: for every generated write history (size roll-overs, date roll-over, retention, gaps) every (begin, end, resource) and (begin, max_lines) query is checked against the surviving items; then every operation boundary, every interior byte of every index entry and sampled/all interior line bytes of the writer's journalled output are materialised as crash prefixes and searched: every item whose line and index entry are complete must be returned in order, at most one bogus (torn) item, never a panic.",
          "Trusted: the writer journal hook is the ground truth for the order of file operations; crash states are prefixes of that stream; one write() per second after the creation second.",
          "5/C19"),
+ "C14": ("schedule-controlled execution (own cooperative scheduler over a std::sync shadow): exhaustive enumeration of all schedules with <= k preemptions + proptest-generated scenarios and preemption lists; end-state oracle",
+         "Exploration with an exhaustive bounded sub-domain: the harness owns the schedule (every Mutex/RwLock/atomic/Once/yield of sentinel-core is a schedule point), so interleavings are inputs: all schedules with <= 2 (quick) / 3 (thorough) preemptions of the 2-thread fresh-resource scenario are enumerated, and generated scenarios (2-3 threads, 1-2 build/exit pairs, inbound/outbound, existing resource, clock step) run under generated preemption lists. After join the shared node, in-flight count and totals are judged.",
+         "Trusted: interleavings at the granularity of std sync operations, sequentially consistent; lazy_static/lru internals atomic; RwLock writer preference not modelled.",
+         "5/C14, 2.4"),
+ "C15": ("schedule-controlled execution: exhaustive k-bounded enumeration over every ordered pair of manager operations per family + proptest scenarios (2-3 threads, callbacks) ; deadlock / panic / health-probe verdicts; known findings keyed by callback shape",
+         "Exploration with an exhaustive bounded sub-domain: every ordered pair of the ten operations (load, load-for-resource, append, clear, clear-resource, get, get-resource, entry, entry with another family updated) x five families x (empty | preloaded) is run under all schedules with <= 1 (quick) / 2 (thorough) preemptions; generated 2-3 thread scenarios with listeners and custom generators add depth. A state in which every unfinished thread is blocked is a deadlock; panics and an unusable manager afterwards are violations.",
+         "Trusted: as C14; liveness decided as the safety property 'no all-blocked state' in bounded scenarios; the two callback shapes recorded as known findings are excluded from exploration by construction and asserted by committed replays.",
+         "5/C15, 2.4"),
+ "C16": ("schedule-controlled execution: exhaustive k-bounded enumeration of three transition scenarios x three strategies + proptest schedules; listener-log path oracle",
+         "Exploration with an exhaustive bounded sub-domain: for each transition (several opening completions, several requests after the retry timeout, probe completion vs new request vs stale completion) and each strategy all schedules with <= 2 (quick) / 3 (thorough) preemptions are enumerated and 2-3 thread variants run under generated schedules; the listener log must be a path of the state machine ending in current_state(), with exactly one opener / one probe.",
+         "Trusted: as C14; virtual clock fixed during the concurrent phase.",
+         "5/C16, 2.4"),
 }
 ALL = ["C%02d" % i for i in range(1, 21)]
 NOT_YET = "check not built yet in this round (planned, see DESIGN.md section 5)"
@@ -91,7 +103,7 @@ for pid in ALL:
         "quick_cmd": f"bin/check {pid} quick",
         "thorough_cmd": f"bin/check {pid} thorough",
         "evidence_file": f"/verif/evidence/{pid}.json",
-        "replay_cmd_template": "/verif/target/seq/release/svcheck replay {path}",
+        "replay_cmd_template": ("/verif/target/sched/release/svcheck replay {path}" if pid in ("C14", "C15", "C16") else "/verif/target/seq/release/svcheck replay {path}"),
         "engine": "svcheck",
         "level_claimed": {"category": ("fault_enumeration" if pid == "C19" else "exploration"), "text": text, "design_ref": "DESIGN.md " + ref},
         "level_note": note,
@@ -111,7 +123,7 @@ manifest = {
         "name": "svcheck",
         "path": "/verif/harness",
         "serves_properties": sorted(CHECKS.keys()),
-        "kind_free_text": "Rust binary: proptest-driven byte-decoded cases, independent reference models, multi-process shards, shrinking, replay files",
+        "kind_free_text": "Rust binary: proptest-driven byte-decoded cases, independent reference models, multi-process shards, shrinking, replay files; a second build (nightly, --features sched) adds a cooperative scheduler that owns every std::sync operation of sentinel-core for C14-C16",
     }],
     "checks": checks,
     "not_applicable": [{"property_id": p, "reason": NOT_YET} for p in ALL if p not in CHECKS],
